@@ -32,12 +32,24 @@ TRUSTED_BASE = [
     'std::sort / std::map / Python dict are taken at their specification (sorted permutation; ordered unique keys; '
     'finite map)',
     'cyarray update_min_max (min/max of an empty array are 0) is modelled, exercised by the tie',
+    'Model/NnpsBounds.lean (NNPS._compute_bounds: min/max over the non-empty arrays, 1 % padding on both sides, '
+    'half-cell padding of a cloud without extent; _get_number_of_cells; find_cell_id) is run at Float with the '
+    'operations of the compiled code in the same order and must reproduce xmin / xmax of every real object and '
+    'ncells_per_dim of LinkedList / BoxSort bit for bit on every state of every run; padded_bounds_valid is proved '
+    'over ordered fields, its conclusion is evaluated in doubles on every state (driver `bounds`, valid=ok)',
+    'Model/NnpsAlias.lean (UIntArray view / c_reset / length=0 / append, NeighborCache.get_neighbors_raw handing out '
+    'views, get_nearest_particles_no_cache) models memory as lists per buffer; a realloc of a buffer that has views '
+    '(cache buffer growing beyond its reservation) and reading an output array after a LATER call are outside the '
+    'model and outside what the harness reads (every result is read right after its call)',
 ]
 ASSUMPTIONS = [
     'serial CPU classes of pysph.base.nnps; OpenMP only through NeighborCache.find_all_neighbors (1-4 threads) '
     'and the parallel octree builder',
     'smoothing lengths positive; coordinates of unused dimensions are 0; extent / cell size <= 40 per axis '
-    '(memory of the key tables), leaf_max_particles >= 2',
+    '(memory of the key tables; the round-number lattice stream has one axis up to 260 cells with at most 6000 '
+    'cells in all and H / num_levels of the Morton-keyed classes capped), leaf_max_particles >= 2',
+    'prealloc=True of get_nearest_particles_no_cache is only used on an output array that is not a view of a cache '
+    '(the flag promises a caller-owned pre-allocated array); an output array is read right after its own call',
     'update_domain() is called before update() after every change, set_context() before cached queries '
     '(as AccelerationEval does); the first cached query without set_context is probed separately',
     'no periodic / mirror domain (that is C07)',
@@ -56,7 +68,13 @@ LEVEL_TEXT = ("Lean 4 theorems over every point cloud, every linearly ordered fi
               "subgrid_cover, morton_key_bits, key_inj, cache_get_eq_find, tree_query_exact, tree_query_exact_checked, "
               "nbrs_exact_ZOrderNNPS, nbrs_exact_ExtendedZOrderNNPS_asym / _sym, strat_cover, "
               "nbrs_exact_StratifiedHashNNPS, sfc_cover, sfc_cell_nested, nbrs_exact_StratifiedSFCNNPS, nbrs_exact_StratifiedSFCNNPS_code (level hypothesis discharged by sfcLevelFixed_ok), "
-              "sfc_level_eps_sliver, sfcLevelFixed_ok) about a hand-written "
+              "sfc_level_eps_sliver, sfcLevelFixed_ok, padded_bounds_valid (every particle of every array lands in a valid "
+              "cell of the box _get_number_of_cells builds from the padded bounds of _compute_bounds), "
+              "nbrs_exact_LinkedListNNPS_bounds / nbrs_exact_BoxSortNNPS_bounds (validity hypothesis discharged), "
+              "upper_pad_necessary, direct_query_never_writes_cache, prealloc_query_never_writes_cache, "
+              "query_history_exact / query_history_exact_from (every history of cached / un-cached queries and resets on "
+              "any objects with any sharing of output arrays returns find_nearest_neighbors' list at every call), "
+              "detach_necessary) about a hand-written "
               "model of the neighbour search and of each class's storage; the model is tied to all 12 compiled NNPS "
               "classes on every run by exact differential execution (dyadic-grid inputs, ties included, cache on/off, "
               "after update histories), the real octree of every sampled run is dumped and the hypotheses of the tree "
@@ -90,8 +108,11 @@ LEVEL_NOTE = ("Proved (all clouds, sizes, knobs): LinkedList (head/next chains o
               "the conditional statement.) Still tie-only (correspondence with the "
               "exact oracle): the approximate mode of ExtendedSpatialHash, the octree builders, the symmetric mode of "
               "StratifiedSFC (unreachable through the constructor), memory safety of the key / cid indexed C arrays, "
-              "CellIndexing beyond the guard, the bounds computation that puts every particle into a valid cell "
-              "(cell_in_range proves the arithmetic step, the padded bounds are a hypothesis). Trusted: Lean kernel, "
+              "CellIndexing beyond the guard. The bounds computation that puts every particle into a valid cell is now "
+              "modelled and proved (padded_bounds_valid; in doubles it is evaluated per state and the model's xmin / xmax / "
+              "ncells are compared bit for bit with the real objects), and the ownership of the output array of the query "
+              "API is modelled (views into the cache, detach on un-cached queries) with query_history_exact for all "
+              "histories. Trusted: Lean kernel, "
               "the model (checked by the tie on ~1700 class runs, ~1000 real-tree checks and ~600 real z-order objects "
               "(keys, cids, pids, ~900 nbr_boxes tables) and ~600 real stratified objects (per-level particle counts "
               "against the model's level function) per quick run), "
